@@ -239,12 +239,34 @@ Variable opt : St -> St.
 Variable dist : St -> R.
 Lemma sphere_fixed_steps n s : snd (run_steps St opt n s) = n.
 Proof. induction n; cbn [run_steps]; [reflexivity|]. destruct (run_steps St opt n s) as [s' c]. cbn [snd] in *. congruence. Qed.
+Lemma run_steps_S n s : fst (run_steps St opt (S n) s) = opt (fst (run_steps St opt n s)).
+Proof. cbn [run_steps]. destruct (run_steps St opt n s). reflexivity. Qed.
+(* a flagged ray: the tested point is on the sphere within the threshold, the reported distance is not negative *)
 Lemma sphere_flag_sound f thr k s0 : sphere_check St opt dist f thr (S k) s0 = true ->
-  Rabs (f (dist (fst (run_steps St opt k s0)))) < thr.
-Proof. unfold sphere_check. intros H. apply Rltb_true in H. exact H. Qed.
+  Rabs (f (dist (fst (run_steps St opt k s0)))) < thr /\ 0 <= sphere_distance St opt dist (S k) s0.
+Proof.
+  unfold sphere_check, sphere_distance. intros H. apply andb_true_iff in H. destruct H as [H1 H2].
+  apply Rltb_true in H1. apply Rleb_true in H2. rewrite run_steps_S. split; assumption.
+Qed.
 Lemma sphere_miss_flagged f thr n s0 : (forall x, thr <= Rabs (f x)) -> sphere_check St opt dist f thr n s0 = false.
-Proof. intros Hm. destruct n; [reflexivity|]. unfold sphere_check. apply Rltb_false. apply Hm. Qed.
+Proof.
+  intros Hm. destruct n; [reflexivity|]. unfold sphere_check. apply andb_false_iff. left. apply Rltb_false. apply Hm.
+Qed.
+Lemma sphere_behind_flagged f thr n s0 : sphere_distance St opt dist n s0 < 0 -> sphere_check St opt dist f thr n s0 = false.
+Proof.
+  intros H. destruct n; [reflexivity|]. unfold sphere_check, sphere_distance in *. rewrite run_steps_S in H.
+  apply andb_false_iff. right. apply Rleb_false. exact H.
+Qed.
 End Sphere.
+
+(* the unrepaired flag accepted a negative distance: one optimiser step from 0 to -1 onto a sphere behind the origin *)
+Lemma sphere_behind_unrepaired_refuted : exists (f : R -> R) thr (opt : R -> R) s0,
+  sphere_distance R opt (fun s => s) 2 s0 < 0 /\ sphere_check_unrepaired R opt (fun s => s) f thr 2 s0 = true.
+Proof.
+  exists (fun x => (x + 1) * (x + 1) - 0), (1 / 100), (fun _ => -1), 0. split.
+  - unfold sphere_distance. cbn. lra.
+  - unfold sphere_check_unrepaired. cbn. apply Rltb_true. replace ((-1 + 1) * (-1 + 1) - 0) with 0 by ring. rewrite Rabs_R0. lra.
+Qed.
 
 (* ------------------------------------------------------------------ the executable copy over Q is the model *)
 Lemma Q2R_div_total x y : Q2R (x / y) = Q2R x / Q2R y.
